@@ -267,6 +267,7 @@ func c04Mode(got, want []string) string {
 }
 
 func (p *c04) RunCase(i int) *core.CaseResult {
+	defer withNoise()()
 	r := &core.CaseResult{}
 	c := &p.cases[i]
 	sql := p.sqlOf(c)
